@@ -96,6 +96,24 @@ pub fn replay_case(case: &Value, hs: Option<&HistSet>, tally: &mut Tally) {
                 }
             }
         }
+        // conversion to a plain bitvector: the distinct positions, counted once each
+        {
+            use simple_sds::bit_vector::BitVector;
+            use simple_sds::ops::SelectZero;
+            let distinct: Vec<usize> = { let mut d = vals.clone(); d.dedup(); d };
+            let got = match guarded(|| {
+                let mut b = if route == "set" { BitVector::from(sv.clone()) } else { BitVector::copy_bit_vec(&sv) };
+                b.enable_rank(); b.enable_select(); b.enable_select_zero();
+                let ones: Vec<usize> = b.one_iter().map(|x| x.1).collect();
+                let zeros = b.zero_iter().count();
+                let sel: Vec<Value> = (0..=distinct.len()).map(|r| enc_opt(b.select(r))).collect();
+                json!([b.len(), b.count_ones(), ones, zeros, sel, b.rank(universe + 1)])
+            }) { Ok(v) => v, Err(m) => json!(format!("PANIC: {}", m)) };
+            let mut sel: Vec<Value> = distinct.iter().map(|p| json!(p)).collect();
+            sel.push(json!(-1));
+            let exp = json!([universe, distinct.len(), distinct, universe - distinct.len(), sel, distinct.len()]);
+            tally.check(hkey(&[ckey, 15]), nt, &|| ctx("BitVector::from / copy_bit_vec of the multiset: [len, count_ones, set positions, zeros, select(0..), rank(len+1)]", &json!(0)), &exp, &got);
+        }
         // one_iter forward and backward, bit iterator forward and backward
         let pairs: Vec<Value> = case["pairs"].as_array().unwrap().clone();
         let bits: Vec<Value> = case["bits"].as_array().unwrap().clone();
@@ -136,9 +154,11 @@ pub fn record_ms(seed: u64, thorough: bool, path: &str) -> Value {
     let mut out = TraceOut::new();
     let mut queries = 0usize;
     let objects = if thorough { 30 } else { 8 };
-    for o in 0..objects {
-        let m = if thorough { rng.range(50, 5000) } else { rng.range(50, 900) };
-        let universe = match o % 5 { 0 => rng.range(1, 20), 1 => rng.range(m / 4 + 1, m), 2 => rng.range(1 << 10, 1 << 14), 3 => rng.range(1 << 18, 1 << 24), _ => rng.range(100, 5000) };
+    for o in 0..(objects + 1) {
+        // the last object is heavily overfull: the zeros of `high` then form long select superblocks
+        let heavy = o == objects;
+        let m = if heavy { 0 } else if thorough { rng.range(50, 5000) } else { rng.range(50, 900) };
+        let universe = if heavy { 48 } else { match o % 5 { 0 => rng.range(1, 20), 1 => rng.range(m / 4 + 1, m), 2 => rng.range(1 << 10, 1 << 14), 3 => rng.range(1 << 18, 1 << 24), _ => rng.range(100, 5000) } };
         // long duplicate runs next to bucket boundaries, duplicates at 0 and at universe - 1
         let mut vals: Vec<usize> = Vec::new();
         let dup0 = rng.range(0, 6);
@@ -149,11 +169,13 @@ pub fn record_ms(seed: u64, thorough: bool, path: &str) -> Value {
             for _ in 0..reps { if vals.len() + 6 < m { vals.push(base); } }
         }
         for _ in 0..rng.range(0, 5) { vals.push(universe - 1); }
+        if heavy { vals = (0..universe).flat_map(|v| std::iter::repeat(v).take(2300 + (v * 13) % 400)).collect(); }
         vals.sort();
         let route = ["set", "try_set", "extend"][o % 3];
         let sv = match guarded(|| build(route, universe, &vals)) { Ok(Ok(v)) => v, _ => { out.push(json!({"e": "def", "universe": universe, "vals": vals, "route": route, "built": "FAILED"})); continue; } };
         out.push(json!({"e": "def", "universe": universe, "vals": vals, "route": route, "built": "ok",
                         "obs": [query(&sv, "len", 0), query(&sv, "ones", 0), query(&sv, "zeros", 0), query(&sv, "multi", 0)]}));
+        let d = out.lines.len();
         let mut pos: Vec<usize> = vec![0, 1, universe.saturating_sub(1), universe, universe + 1];
         for k in (0..vals.len()).step_by((vals.len() / 40).max(1)) { pos.extend([vals[k].saturating_sub(1), vals[k], vals[k] + 1]); }
         for _ in 0..30 { pos.push(rng.below(universe + 2)); }
@@ -166,19 +188,19 @@ pub fn record_ms(seed: u64, thorough: bool, path: &str) -> Value {
             let mut all: Vec<usize> = base.iter().copied().filter(|a| lim.map(|l| *a < l).unwrap_or(true)).collect();
             if with_huge { all.extend(huge.iter()); }
             let rs: Vec<Value> = all.iter().map(|a| query(&sv, op, *a)).collect();
-            out.push(json!({"e": "q", "op": op, "a": all.iter().map(|a| enc_arg(*a)).collect::<Vec<Value>>(), "r": rs}));
+            out.push(json!({"e": "q", "d": d, "op": op, "a": all.iter().map(|a| enc_arg(*a)).collect::<Vec<Value>>(), "r": rs}));
             queries += all.len();
         }
         let fwd: Vec<Value> = sv.one_iter().map(|(r, p)| json!([r, p])).collect();
         let mut back: Vec<Value> = sv.one_iter().rev().map(|(r, p)| json!([r, p])).collect();
         back.reverse();
-        out.push(json!({"e": "pairs", "fwd": fwd, "back": back}));
+        if vals.len() <= 20000 { out.push(json!({"e": "pairs", "d": d, "fwd": fwd, "back": back})); }
         if universe <= 20000 {
             let f: Vec<usize> = sv.iter().enumerate().filter(|(_, b)| *b).map(|(i, _)| i).collect();
             let n = sv.iter().count();
             let mut b: Vec<usize> = sv.iter().rev().enumerate().filter(|(_, b)| *b).map(|(i, _)| universe - 1 - i).collect();
             b.reverse();
-            out.push(json!({"e": "bits", "n": n, "fwd": f, "back": b}));
+            out.push(json!({"e": "bits", "d": d, "n": n, "fwd": f, "back": b}));
         }
     }
     out.write(path);
